@@ -47,7 +47,7 @@ func init() {
 	spec.Required = append(spec.Required,
 		"concurrent-put:uncompressed:verify", "concurrent-put:compressed:verify", "concurrent-put:overlapped",
 		"concurrent-put:via:direct", "concurrent-put:via:server", "concurrent-put:procs:1", "concurrent-put:procs:unchanged")
-	spec.Rule += "; plus concurrent-upload histories: 2..8 clients each PUT 1..5 distinct valid chunks (64 B .. 1 MiB) to one verifying writable chunk handler " +
+	spec.Rule += "; plus concurrent-upload histories: 2..8 clients each PUT 1..5 distinct valid chunks (64 B .. 256 KiB generated, 1 MiB in the enumerated grid and in thorough) to one verifying writable chunk handler " +
 		"(compressed | uncompressed, direct | http.Server, GOMAXPROCS 1 | unchanged) whose store writes a verified chunk only after the next upload has been received and verified; " +
 		"afterwards every stored object must hash to its name and every 200 must be backed by exactly the uploaded chunk"
 	spec.Assumptions = append(spec.Assumptions,
@@ -56,10 +56,10 @@ func init() {
 
 // ---------------------------------------------------------------- generator
 
-// drawConc: 1/64 of the cases (quick) are concurrent-upload histories, 1/32 in thorough.
+// drawConc: 1/128 of the cases (quick) are concurrent-upload histories, 1/64 in thorough.
 func drawConc(t *rapid.T) bool {
 	all := true
-	for i := 0; i < hx.Pick(6, 5); i++ {
+	for i := 0; i < hx.Pick(7, 6); i++ {
 		if !rapid.Bool().Draw(t, "conc") {
 			all = false
 		}
@@ -67,7 +67,9 @@ func drawConc(t *rapid.T) bool {
 	return all
 }
 
-var concSizes = []int{64, 700, 4096, 20000, 70000, 70000, 262144, 262144, 1 << 20}
+// 1 MiB uploads are part of the enumerated grid in both tiers; the generated histories of the
+// quick tier stay below that (the cost of a case is its bytes: about 20 ms per MiB)
+var concSizes = []int{64, 700, 4096, 4096, 20000, 20000, 70000, 70000, 262144}
 
 func genConcCase(t *rapid.T) Case {
 	c := Case{Server: "chunk", Writable: true, Wire: "plain", StoreSkipVerify: true}
@@ -89,13 +91,16 @@ func genConcCase(t *rapid.T) Case {
 	}
 	c.Seed = rapid.Uint64().Draw(t, "seed")
 	k := rapid.IntRange(2, 8).Draw(t, "clients")
-	budget := 3 << 20 // bytes per case
+	budget := hx.Pick(600000, 3<<20) // bytes per case
 	n := 0
 	for w := 0; w < k; w++ {
 		var ws []ConcChunk
 		m := rapid.IntRange(1, 5).Draw(t, "uploads")
 		for j := 0; j < m; j++ {
 			l := rapid.SampledFrom(concSizes).Draw(t, "len")
+			if hx.Thorough() && l == 262144 && rapid.Bool().Draw(t, "huge") {
+				l = 1 << 20
+			}
 			if l > budget {
 				l = 700
 			}
